@@ -24,13 +24,27 @@ import (
 
 const termPkgTemplate = `package PKG
 
+import "strings"
+
 type Token struct{}
 type Node struct{}
 type P struct{ lox }
 
 func (p *P) on_s(a Token) Node { return Node{} }
 
-func Run(t []int, b int) string { return "" }
+// Run prints _TokenToString of every given value.
+func Run(t []int, b int) (res string) {
+	defer func() {
+		if e := recover(); e != nil {
+			res = "panic"
+		}
+	}()
+	ss := make([]string, len(t))
+	for i, x := range t {
+		ss[i] = _TokenToString(x)
+	}
+	return strings.Join(ss, " ")
+}
 `
 
 // tokenToStringCases extracts `case NAME: return "str"` pairs and the default of _TokenToString.
@@ -173,6 +187,20 @@ func init() {
 			specs = append(specs, spec{strings.Join(enc, " "), append([]string{"EOF", "ERROR"}, order...)})
 		}
 		pkgs := GenerateAllFiles(root, names, files, gos, false)
+		var okNames []string
+		for _, p := range pkgs {
+			if p.OK {
+				okNames = append(okNames, p.Name)
+			}
+		}
+		bin, berr := "", error(nil)
+		if len(okNames) > 0 {
+			bin, berr = BuildMux(root, okNames)
+		}
+		if berr != nil {
+			c.EmitO("# go build of generated packages", "# build-failed", "C06: generated packages do not compile: "+strings.ReplaceAll(berr.Error(), "\n", " ⏎ "))
+			return
+		}
 		for i, p := range pkgs {
 			sp := specs[i]
 			flat := strings.ReplaceAll(strings.TrimSpace(p.Lox), "\n", " ⏎ ")
@@ -219,6 +247,27 @@ func init() {
 				}
 				if len(cases) != len(sp.names) {
 					or = "C19: _TokenToString has a different number of cases than there are terminals"
+				}
+			}
+			if or == "" {
+				// the compiled function on every constant, on the values around the range and on far values
+				n := len(sp.names)
+				probe := []int{-1000, -2, -1}
+				for v := 0; v <= n+2; v++ {
+					probe = append(probe, v)
+				}
+				probe = append(probe, 2*n, 255, 256, 65536, 1<<31-1)
+				outs := RunMux(bin, []string{fmt.Sprintf("%s 0 %s", p.Name, joinInts(probe))})
+				var want []string
+				for _, v := range probe {
+					if v >= 0 && v < n {
+						want = append(want, sp.names[v])
+					} else {
+						want = append(want, "???")
+					}
+				}
+				if outs[0] != strings.Join(want, " ") {
+					or = fmt.Sprintf("C19: _TokenToString on %v gives `%s`, want `%s`", probe, outs[0], strings.Join(want, " "))
 				}
 			}
 			if or != "" {
